@@ -121,15 +121,37 @@ func runProm(seed int64, n int) {
 		for _, mode := range []string{"vector", "matrix"} {
 			var body string
 			steps := 1
+			var times []int64 // expected point times in ms (matrix)
 			if mode == "vector" {
 				body = get("/api/v1/query?time=1700000000&query=" + url.QueryEscape(q))
 			} else {
-				steps = 1 + r.Intn(4)
-				body = get(fmt.Sprintf("/api/v1/query_range?start=1700000010&end=%d&step=15&query=%s", 1700000010+15*(steps-1), url.QueryEscape(q)))
-				// the controller widens [start, end] to multiples of 15 s: 1700000010 -> 1700000010 is a multiple; end too
+				// the controller widens [start, end] to multiples of 15 s; the step may be fractional (sub-second timestamps)
+				stepTxt := []string{"15", "15", "0.5", "1.5", "7.25", "0.25", "0.001", "3"}[r.Intn(8)]
+				stepMs := map[string]int64{"15": 15000, "0.5": 500, "1.5": 1500, "7.25": 7250, "0.25": 250, "0.001": 1, "3": 3000}[stepTxt]
+				startS := int64(1700000010 + r.Intn(40))
+				spanS := int64(r.Intn(46))
+				if stepMs == 1 {
+					spanS = 0 // at most 15 s of 1 ms points (11,000-point limit)
+					startS = startS / 15 * 15
+					if r.Intn(2) == 0 {
+						startS += 1 + int64(r.Intn(9))
+						spanS = 0
+					}
+				}
+				endS := startS + spanS
+				a := startS / 15 * 15 * 1000
+				b := (endS + 14) / 15 * 15 * 1000
+				if (b-a)/stepMs+1 > 11000 {
+					stepTxt, stepMs = "0.5", 500
+				}
+				for t := a; t <= b; t += stepMs {
+					times = append(times, t)
+				}
+				steps = len(times)
+				body = get(fmt.Sprintf("/api/v1/query_range?start=%d&end=%d&step=%s&query=%s", startS, endS, stepTxt, url.QueryEscape(q)))
 			}
 			stat("prom_"+mode, 1)
-			kind, msg := checkProm(mode, body, ser, steps)
+			kind, msg := checkProm(mode, body, ser, steps, times)
 			if kind == "query-rejected" { // the generated PromQL text was refused: nothing was rendered, nothing to judge
 				stat("prom_query_rejected", 1)
 				continue
@@ -147,7 +169,7 @@ func runProm(seed int64, n int) {
 	}
 }
 
-func checkProm(mode, body string, ser []promSeries, steps int) (string, string) {
+func checkProm(mode, body string, ser []promSeries, steps int, times []int64) (string, string) {
 	doc, err := strictParse([]byte(body))
 	if err != nil {
 		return "invalid-json", err.Error()
@@ -195,13 +217,23 @@ func checkProm(mode, body string, ser []promSeries, steps int) (string, string) 
 			if len(pairs) < 1 || (mode == "matrix" && len(pairs) < steps) {
 				return "rows", fmt.Sprintf("result[%d] has %d points, at least %d expected", n, len(pairs), steps)
 			}
-			for _, pv := range pairs {
+			if mode == "matrix" && len(pairs) != len(times) {
+				return "rows", fmt.Sprintf("result[%d] has %d points, %d expected", n, len(pairs), len(times))
+			}
+			for pi, pv := range pairs {
 				p, ok := pv.([]any)
 				if !ok || len(p) != 2 {
 					return "shape", "point is not a pair"
 				}
-				if _, ok := p[0].(json.Number); !ok {
+				tn, ok := p[0].(json.Number)
+				if !ok {
 					return "shape", "point time is not a number"
+				}
+				if mode == "matrix" && !secondsTextIsNs(tn.String(), times[pi]*1000000) {
+					return "timestamp-loss", fmt.Sprintf("point %d of result[%d]: time %d ms rendered as %s", pi, n, times[pi], tn.String())
+				}
+				if mode == "vector" && !secondsTextIsNs(tn.String(), 1700000000*1000000000) {
+					return "timestamp-loss", fmt.Sprintf("time 1700000000 rendered as %s", tn.String())
 				}
 				v, ok := p[1].(string)
 				if !ok {
